@@ -37,8 +37,10 @@ enum {
 
 static size_t s_advance_and_clamp_index(size_t current_index, int amount, size_t maximum) {
     size_t next_index = current_index + amount;
-    if (next_index > maximum) {
-        next_index = maximum;
+    if (next_index >= maximum) {
+        /* the write was cut short: its terminator sits at maximum - 1, continue from there so that the
+         * final newline (and its terminator) still fit */
+        next_index = maximum > 0 ? maximum - 1 : 0;
     }
 
     return next_index;
